@@ -33,6 +33,12 @@ class ModRef:
     def __init__(self, path):
         self.path = path
 
+    def __eq__(self, other):
+        return isinstance(other, ModRef) and other.path == self.path
+
+    def __hash__(self):
+        return hash(self.path)
+
     def __repr__(self):
         return f"<mod {self.path}>"
 
@@ -164,6 +170,13 @@ class Prims:
     def e_Constant(self, ex, node, st):
         return [(st, node.value)]
 
+    def e_Slice(self, ex, node, st):
+        lo = self.eval1(ex, node.lower, st) if node.lower else None
+        hi = self.eval1(ex, node.upper, st) if node.upper else None
+        if node.step is not None:
+            raise Unsupported("slice step")
+        return [(st, slice(lo, hi))]
+
     def e_Name(self, ex, node, st):
         if node.id in st.vars:
             return [(st, st.vars[node.id])]
@@ -252,6 +265,10 @@ class Prims:
         if isinstance(node.op, ast.USub):
             if isinstance(v, SSeq):
                 return [(st, v.map(lambda x: -x))]
+            if is_sym(v) and str(v.sort()) == "Val":
+                from . import valsort as V
+
+                return [(st, z3.If(V.is_pinf(v), V.ninf, z3.If(V.is_ninf(v), V.pinf, z3.If(V.is_nan(v), V.nan, V.fin(-V.rv(v)))))) if not (v.eq(V.pinf) or v.eq(V.ninf)) else (st, V.ninf if v.eq(V.pinf) else V.pinf)]
             return [(st, -v)]
         if hasattr(v, "pyvc_binop") and isinstance(node.op, (ast.Invert, ast.USub)):
             return [(st, v.pyvc_binop(ex, st, node.op, None, False, node, self))]
@@ -389,7 +406,9 @@ class Prims:
             if is_sym(item):
                 if z3.is_string(item):
                     return z3.Or([item == z3.StringVal(c) for c in container if isinstance(c, str)] + [item == c for c in container if is_sym(c) and z3.is_string(c)] or [z3.BoolVal(False)])
-                return z3.Or([to_z3(item) == to_z3(c) for c in container if (isinstance(c, (int, bool)) or (is_sym(c) and not z3.is_string(c)))] or [z3.BoolVal(False)])
+                if str(item.sort()) == "Val":
+                    return z3.Or([item == c for c in container if is_sym(c) and c.sort() == item.sort()] or [z3.BoolVal(False)])
+                return z3.Or([to_z3(item) == to_z3(c) for c in container if (isinstance(c, (int, bool)) or (is_sym(c) and not z3.is_string(c) and str(c.sort()) != "Val"))] or [z3.BoolVal(False)])
             if isinstance(item, Record):
                 return False
             return item in container
@@ -482,6 +501,10 @@ class Prims:
         if isinstance(base, ModRef):
             if base.path == "numpy" and attr == "nan":
                 return NAN_R
+            if base.path == "numpy" and attr == "inf":
+                from . import valsort as V
+
+                return V.pinf
             return ModRef(base.path + "." + attr)
         if isinstance(base, SSeq):
             if attr == "size":
@@ -491,7 +514,7 @@ class Prims:
             if attr == "ndim":
                 return 1
             if attr == "dtype":
-                return Record("dtype", kind={"Int": "i", "Real": "f", "Bool": "b"}.get(str(base.elem_sort), "f"))
+                return Record("dtype", kind={"Int": "i", "Real": "f", "Bool": "b", "Val": "f"}.get(str(base.elem_sort), "f"))
             return Method(base, attr)
         if isinstance(base, (list, tuple, dict, set, str)):
             return Method(base, attr)
@@ -533,9 +556,7 @@ class Prims:
         if hasattr(base, "pyvc_getitem"):
             return base.pyvc_getitem(ex, st, idx, node, self)
         if isinstance(base, SSeq):
-            if isinstance(idx, SSeq):
-                if idx.elem_sort == B:
-                    raise Unsupported("boolean-mask indexing (result length is data dependent)")
+            if isinstance(idx, SSeq) and idx.elem_sort != B:
                 k = fresh("i")
                 nonneg = forall(k, z3.Implies(in_range(k, 0, idx.length), z3.And(idx.at(k) >= 0, idx.at(k) < base.length)))
                 status, *_ = ex.solver.check(ex.axioms + st.pc, nonneg, timeout_ms=3000, fallback=False)
@@ -545,8 +566,21 @@ class Prims:
                     return SSeq(idx.length, lambda i: base.fn(idx.fn(i)), kind="array", elem_sort=base.elem_sort)
                 ex.oblige(st, forall(k, z3.Implies(in_range(k, 0, idx.length), z3.And(idx.at(k) >= -base.length, idx.at(k) < base.length))), ex._name("index", node), f"line {node.lineno}: fancy index in range: {ex.src(node)}")
                 return SSeq(idx.length, lambda i: base.fn(z3.If(idx.fn(i) < 0, idx.fn(i) + base.length, idx.fn(i))), kind="array", elem_sort=base.elem_sort)
-            if isinstance(idx, tuple) and len(idx) == 1:
+            if isinstance(idx, tuple):
+                idx = tuple(x for x in idx if x is not Ellipsis)
+                if len(idx) == 0:
+                    return base
+                if len(idx) != 1:
+                    raise Unsupported("multi-dimensional index into a 1-D sequence")
                 return self.getitem(ex, st, base, idx[0], node)
+            if isinstance(idx, slice):
+                return self.getslice(ex, st, base, idx.start, idx.stop, node)
+            if isinstance(idx, SSeq) and idx.elem_sort == B:
+                ex.oblige(st, idx.length == base.length, ex._name("broadcast", node), f"line {node.lineno}: boolean mask has the length of the indexed array")
+                m, P, R = nonzero_of(ex, st, idx)
+                out = SSeq(m, lambda j: base.fn(P(j)), kind="array", elem_sort=base.elem_sort, name="masked")
+                out.selected_from = (base, idx)
+                return out
             if isinstance(idx, list):
                 elems = [base.fn(self.norm_index(ex, st, base, j, node)) for j in idx]
                 return seq_of_terms(elems, base.elem_sort)
@@ -600,8 +634,20 @@ class Prims:
         if hasattr(base, "pyvc_setitem"):
             return base.pyvc_setitem(ex, st, idx, value, node, self)
         if isinstance(base, SSeq):
-            if isinstance(idx, tuple) and len(idx) == 1:
-                idx = idx[0]
+            if isinstance(idx, tuple):
+                idx = tuple(x for x in idx if x is not Ellipsis)
+                if len(idx) == 1:
+                    idx = idx[0]
+            if isinstance(idx, SSeq) and idx.elem_sort == I and isinstance(value, SSeq):
+                # scatter  x[..., idx] = vals  with duplicate-free idx (numpy: last write wins; required here)
+                i1, i2 = fresh("i"), fresh("j")
+                ex.oblige(st, value.length == idx.length, ex._name("broadcast", node), f"line {node.lineno}: as many values as indices in the scatter store")
+                ex.oblige(st, forall(i1, z3.Implies(in_range(i1, 0, idx.length), in_range(idx.at(i1), 0, base.length))), ex._name("index", node), f"line {node.lineno}: scatter indices in range: {ex.src(node)[:60]}")
+                ex.oblige(st, z3.ForAll([i1, i2], z3.Implies(z3.And(in_range(i1, 0, idx.length), in_range(i2, 0, idx.length), i1 != i2), idx.at(i1) != idx.at(i2))), ex._name("scatter_unique", node), f"line {node.lineno}: scatter indices are pairwise different")
+                W = z3.Function(f"scatter_w!{fresh('w').decl().name()}", I, I)
+                st.assume(forall(i1, z3.Implies(in_range(i1, 0, idx.length), W(idx.at(i1)) == i1)))
+                hit = lambda g: z3.And(in_range(W(g), 0, idx.length), idx.fn(W(g)) == g)
+                return SSeq(base.length, lambda g: z3.If(hit(g), value.fn(W(g)), base.fn(g)), kind=base.kind, elem_sort=base.elem_sort, name=base.name)
             if isinstance(idx, SSeq) and idx.elem_sort == B:
                 # masked store  x[mask] = v  (value semantics: the variable is re-bound to the updated array)
                 ex.oblige(st, idx.length == base.length, ex._name("broadcast", node), f"line {node.lineno}: boolean mask has the length of the array")
@@ -776,6 +822,11 @@ class Prims:
             if attr == "item":
                 ex.oblige(st, obj.length == 1, ex._name("item", node), f"line {node.lineno}: .item() needs exactly one element")
                 return obj.at(0)
+            if attr == "nonzero":
+                m, P, R = nonzero_of(ex, st, obj)
+                return (SSeq(m, lambda j: P(j), kind="array", name="nonzero"),)
+            if attr == "argsort":
+                return stable_argsort(ex, st, obj, kwargs, node)
             if attr == "max":
                 return seq_max(ex, st, obj, node)
             if attr == "min":
@@ -842,7 +893,7 @@ class Prims:
         R("numpy.diff", self.m_diff)
         R("numpy.arange", self.m_arange)
         R("numpy.asarray", lambda ex, st, a, k, n: a[0])
-        R("numpy.array", lambda ex, st, a, k, n: a[0] if isinstance(a[0], SSeq) else seq_of(a[0], "array") if isinstance(a[0], (list, tuple)) and a[0] and all(isinstance(x, int) or is_sym(x) for x in a[0]) else a[0])
+        R("numpy.array", lambda ex, st, a, k, n: a[0] if isinstance(a[0], SSeq) else (seq_of_terms([z3.BoolVal(x) for x in a[0]], B) if isinstance(a[0], (list, tuple)) and a[0] and all(isinstance(x, bool) for x in a[0]) else (seq_of(a[0], "array") if isinstance(a[0], (list, tuple)) and a[0] and all(isinstance(x, int) or is_sym(x) for x in a[0]) else a[0])))
         R("numpy.insert", self.m_insert)
         R("numpy.isin", self.m_isin)
         R("numpy.any", lambda ex, st, a, k, n: self.method(ex, st, a[0], "any", [], {}, n))
@@ -851,6 +902,9 @@ class Prims:
         R("math.prod", self.m_prod)
         R("typing.cast", lambda ex, st, a, k, n: a[1])  # dropped by extraction: cast(T, x) -> x
         R("numpy.concatenate", lambda ex, st, a, k, n: seq_concat(a[0][0], a[0][1]) if len(a[0]) == 2 else (_ for _ in ()).throw(Unsupported("concatenate of other than two arrays")))
+        R("builtins.slice", lambda ex, st, a, k, n: slice(*a))
+        R("numpy.full", self.m_full)
+        R("numpy.where", self.m_where)
         R("numpy.zeros_like", lambda ex, st, a, k, n: SSeq(a[0].length, lambda i: z3.IntVal(0), kind="array"))
         R("numpy.digitize", self.m_digitize)
         R("numpy.sqrt", lambda ex, st, a, k, n: SQRT(coerce(a[0], z3.RealVal(0))[0]))
@@ -989,6 +1043,46 @@ class Prims:
             return x.map(lambda v: self.contains(ex, st, test, v), B)
         raise Unsupported("isin on a concrete sequence")
 
+    def m_where(self, ex, st, a, k, node):
+        cond, x, y = a
+        if not isinstance(cond, SSeq):
+            raise Unsupported("np.where on a scalar condition")
+        xs = (lambda i: x.fn(i)) if isinstance(x, SSeq) else (lambda i: x if is_sym(x) else to_z3(x))
+        ys = (lambda i: y.fn(i)) if isinstance(y, SSeq) else (lambda i: y if is_sym(y) else to_z3(y))
+        sort = (x if isinstance(x, SSeq) else y).elem_sort if isinstance(x, SSeq) or isinstance(y, SSeq) else I
+        if str(sort) == "Val":
+            from . import valsort as V
+
+            if not isinstance(x, SSeq):
+                xs = lambda i: V.as_val(x)
+            if not isinstance(y, SSeq):
+                ys = lambda i: V.as_val(y)
+        return SSeq(cond.length, lambda i: z3.If(cond.fn(i), xs(i), ys(i)), kind="array", elem_sort=sort, name="where")
+
+    def m_full(self, ex, st, a, k, node):
+        shape = a[0] if a else k.get("shape")
+        fv = k.get("fill_value", a[1] if len(a) > 1 else None)
+        if not (isinstance(shape, tuple) and len(shape) == 1):
+            raise Unsupported("np.full with a shape other than (n,)")
+        v = fv
+        sort = I
+        dt = k.get("dtype")
+        want_val = isinstance(dt, Record) and dt.fields.get("kind") == "f"
+        if want_val and not is_sym(fv):
+            from . import valsort as V
+
+            return SSeq(to_z3(shape[0]), lambda i, v=V.as_val(fv if fv is not None else float("nan")): v, kind="array", elem_sort=V.Val, name="full")
+        if is_sym(fv):
+            sort = fv.sort()
+        elif isinstance(fv, float) or fv is None:
+            from . import valsort as V
+
+            v = V.as_val(fv if fv is not None else float("nan"))
+            sort = V.Val
+        else:
+            v = to_z3(fv)
+        return SSeq(to_z3(shape[0]), lambda i, v=v: v, kind="array", elem_sort=sort, name="full")
+
     def m_digitize(self, ex, st, a, k, node):
         """np.digitize(x, bins, right) for increasing real bins and extended-real x (ASSUMED contract):
         d = number of bins below x  (bins[j] <= x, or bins[j] < x when right=True); NaN sorts after every bin."""
@@ -1083,7 +1177,44 @@ def seq_of_terms(terms, sort):
 
 
 def seq_concat(a, b):
-    return SSeq(a.length + b.length, lambda i: z3.If(i < a.length, a.fn(i), b.fn(i - a.length)), kind=a.kind, elem_sort=a.elem_sort)
+    return SSeq(z3.simplify(a.length + b.length), lambda i: z3.If(i < a.length, a.fn(i), b.fn(i - a.length)), kind="array" if "array" in (a.kind, b.kind) else a.kind, elem_sort=a.elem_sort)
+
+
+def nonzero_of(ex, st, mask):
+    """Positions of the true entries of a boolean sequence (np.nonzero / boolean-mask indexing, ASSUMED contract):
+    P(0) < P(1) < ... < P(m-1) are exactly the indices i with mask[i]; R(i) is the rank of a true position."""
+    cached = getattr(mask, "_nz", None)
+    if cached is not None:
+        return cached
+    tag = fresh("z").decl().name()
+    m = fresh("nnz")
+    P = z3.Function(f"nz_pos!{tag}", I, I)
+    R = z3.Function(f"nz_rank!{tag}", I, I)
+    j, i = fresh("j"), fresh("i")
+    n = mask.length
+    st.assume(z3.And(m >= 0, m <= n))
+    st.assume(forall(j, z3.Implies(in_range(j, 0, m), z3.And(in_range(P(j), 0, n), mask.at(P(j)), R(P(j)) == j)), patterns=[P(j)]))
+    st.assume(forall(j, z3.Implies(in_range(j, 0, m - 1), P(j) < P(j + 1)), patterns=[P(j + 1)]))
+    st.assume(forall(i, z3.Implies(z3.And(in_range(i, 0, n), mask.at(i)), z3.And(in_range(R(i), 0, m), P(R(i)) == i)), patterns=[R(i)]))
+    mask._nz = (m, P, R)
+    return mask._nz
+
+
+def stable_argsort(ex, st, seq, kwargs, node):
+    """ndarray.argsort(kind='stable') (ASSUMED): a permutation that sorts, ties in original order."""
+    tag = fresh("s").decl().name()
+    p = z3.Function(f"argsort!{tag}", I, I)
+    inv = z3.Function(f"argsort_inv!{tag}", I, I)
+    i, j = fresh("i"), fresh("j")
+    n = seq.length
+    st.assume(forall(i, z3.Implies(in_range(i, 0, n), z3.And(in_range(p(i), 0, n), inv(p(i)) == i)), patterns=[p(i)]))
+    st.assume(forall(i, z3.Implies(in_range(i, 0, n), z3.And(in_range(inv(i), 0, n), p(inv(i)) == i)), patterns=[inv(i)]))
+    st.assume(forall(i, z3.Implies(in_range(i, 0, n - 1), seq.at(p(i)) <= seq.at(p(i + 1))), patterns=[p(i + 1)]))
+    if kwargs.get("kind") == "stable":
+        st.assume(forall(i, z3.Implies(z3.And(in_range(i, 0, n - 1), seq.at(p(i)) == seq.at(p(i + 1))), p(i) < p(i + 1)), patterns=[p(i + 1)]))
+    out = SSeq(n, lambda t: p(t), kind="array", name="perm")
+    out.perm_of = (seq, p, inv, kwargs.get("kind") == "stable")
+    return out
 
 
 def seq_member(ex, seq):
